@@ -142,14 +142,14 @@ def floatColumn (values : List Nat) (null : Option (List Nat)) : Column :=
                 sections := [.f64 (fillNulls p 0 0 values), .bitvec p] }
   | none => { len := values.length, ops := [], sections := [.f64 values] }
 
-/-- `MixedColBuffer::finalize`: everything becomes a string; `RawVal::Null` entries are SKIPPED
-    (so the string buffer is shorter than the column when NULLs were appended to a Mixed buffer). -/
+/-- `MixedColBuffer::finalize`: everything becomes a string; a `RawVal::Null` entry keeps its row with the
+    placeholder `""` (the present bitmap marks it as NULL), exactly like `push_nulls` on a string buffer. -/
 def mixedStrings (cv : Conv) : List RawVal → List Bytes
   | [] => []
   | .str s :: r => s :: mixedStrings cv r
   | .int i :: r => cv.showInt i :: mixedStrings cv r
   | .float f :: r => cv.showFloat f :: mixedStrings cv r
-  | .null :: r => mixedStrings cv r
+  | .null :: r => [] :: mixedStrings cv r
 
 /-- `Column::null` -/
 def nullColumn (len : Nat) : Column := { len := len, ops := [], sections := [.null len] }
